@@ -58,7 +58,7 @@ def check(case: Dict[str, Any]) -> CaseInfo:
     nontrivial = False
     with scratch_dir() as d:
         files = write_case(case, d)
-        ta = load_analysis(files, d, mp=case.get("mp", False))
+        ta = load_analysis(files, d, mp=case.get("mp", False), prelude=case.get("prelude"))
         df, _ = hta_call("get_idle_time_breakdown", lambda: ta.get_idle_time_breakdown(
             ranks=p["ranks"], streams=p["streams"], visualize=False, consecutive_kernel_delay=p["threshold"]))
     want_ranks = p["ranks"] if p["ranks"] else [0]
